@@ -198,8 +198,19 @@ Upd(cur, path, idxs, v) ==
               IF IsBad(r) THEN r ELSE [cur EXCEPT !.f[st.f] = r]
     [] st.k = "swz" ->
          LET m == st.m IN
-         IF cur.t # "vec" \/ Tail(path) # <<>> THEN ILL
+         IF cur.t # "vec" THEN ILL
          ELSE IF \E j \in 1..Len(m) : m[j] >= Len(cur.c) THEN ILL
+         ELSE IF Tail(path) # <<>> THEN
+              \* a selection on a swizzle selects among the swizzled components: v.zyx.xy designates v.zy, v.zyx[0] designates v.z
+              (LET nx == Head(Tail(path)) IN
+               IF nx.k = "swz" THEN
+                    (IF \E j \in 1..Len(nx.m) : nx.m[j] >= Len(m) THEN ILL
+                     ELSE Upd(cur, <<[k |-> "swz", m |-> [j \in 1..Len(nx.m) |-> m[nx.m[j] + 1]]]>> \o Tail(Tail(path)), idxs, v))
+               ELSE IF nx.k = "idx" THEN
+                    (LET i == Head(idxs) IN
+                     IF IsBad(i) THEN i ELSE IF ~IsI(i) THEN ILL ELSE IF i.v < 0 \/ i.v >= Len(m) THEN OOB
+                     ELSE Upd(cur, <<[k |-> "swz", m |-> <<m[i.v + 1]>>]>> \o Tail(Tail(path)), Tail(idxs), v))
+               ELSE ILL)
          ELSE IF \E j, l \in 1..Len(m) : j # l /\ m[j] = m[l] THEN ILL          \* a repeated component in a write mask
          ELSE IF Len(m) = 1 THEN
               (IF ~IsNum(v) THEN ILL ELSE
